@@ -211,8 +211,26 @@ func (b *BoxLayout) Draw() {
 }
 
 // Size returns the preferred size in character cells (width, height).
+// It is computed from the current preferred sizes of the children, so that
+// an enclosing layout sees the right value even before this layout has been
+// laid out itself (or after a nested widget changed its size).
 func (b *BoxLayout) Size() (int, int) {
-	return b.width, b.height
+	width, height := 0, 0
+	for _, c := range b.cells {
+		x, y := c.widget.Size()
+		if b.orient == Vertical {
+			height += y
+			if x > width {
+				width = x
+			}
+		} else {
+			width += x
+			if y > height {
+				height = y
+			}
+		}
+	}
+	return width, height
 }
 
 // SetView sets the View object used for the text bar.
